@@ -145,5 +145,34 @@ func runOutdir(t []string) string {
 		!containsAll(rootLetters(rt.RootCert), lettersOrDash(nacache.VerifConfigTrustBundle(s.sc))) {
 		return "violated outdir-stale root file differs from the answer"
 	}
+	// The root file BETWEEN requests: a `default` request that misses the cache rewrites root-cert.pem as well, with the
+	// CA's root as it came.  Judged: it holds the CA's current root and only CA certificates, and key / cert are the
+	// answer.  Observed and counted, not judged (the statement speaks of the CA's roots): the configured anchors are
+	// only merged in by the next ROOTCA request.
+	s.q.mu.Lock()
+	pend := append([]*qEntry(nil), s.q.entries[next:]...)
+	for _, e := range pend {
+		e.fired = true
+	}
+	s.q.mu.Unlock()
+	for _, e := range pend {
+		_ = e.task()
+	}
+	before := s.ca.calls()
+	it, err = s.sc.GenerateSecret(security.WorkloadKeyCertResourceName)
+	if err != nil || s.ca.calls() != before+1 {
+		return "violated outdir-gen-error after the rotation"
+	}
+	root := read("root-cert.pem")
+	if !containsAll(rootLetters(root), "A") || nonCARoot(root) ||
+		!bytes.Equal(read("key.pem"), it.PrivateKey) || !bytes.Equal(read("cert-chain.pem"), it.CertificateChain) {
+		return "violated outdir-stale files after a default miss: root file " + rootLetters(root)
+	}
+	lostAnchors := 0
+	if !containsAll(rootLetters(root), lettersOrDash(nacache.VerifConfigTrustBundle(s.sc))) {
+		lostAnchors = 1
+	}
+	statf("outdir goroutines=%d rounds=%d ca-calls=%d tasks=%d root-file-without-anchors-after-default-miss=%d", n, rounds,
+		s.ca.calls(), s.q.len(), lostAnchors)
 	return "ok files"
 }
